@@ -89,6 +89,38 @@ def m_istitle(s):
     for c in s.cs:
         ok += [z3.Implies(is_up(c), z3.Not(prev)), z3.Implies(is_lo(c), prev)]; prev = is_cased(c)
     return SBool(z3.And(z3.And(*ok), z3.Or(*[is_cased(c) for c in s.cs])))
+def m_split(s, sep=None, maxsplit=-1):
+    """str.split(sep) for a concrete single-character separator"""
+    if not isinstance(sep, str) or len(sep) != 1 or maxsplit != -1: raise Unsupported("str.split with this separator")
+    s = lift(s); parts = []; cur = []
+    for c in s.cs:
+        if CTX.decide(c == ord(sep)):
+            parts.append(SStr(cur)); cur = []
+        else: cur.append(c)
+    parts.append(SStr(cur))
+    return parts
+def m_contains(s, sub):
+    """`sub in s` for a concrete single character"""
+    if not isinstance(sub, str) or len(sub) != 1: raise Unsupported("`in` with this operand")
+    s = lift(s)
+    if not s.cs: return False
+    return SBool(z3.Or(*[c == ord(sub) for c in s.cs]))
+def m_capitalize(s):
+    if not s.cs: return SStr([])
+    return SStr([z3.If(is_lo(s.cs[0]), s.cs[0] - 32, s.cs[0])] + [z3.If(is_up(c), c + 32, c) for c in s.cs[1:]])
+def m_replace(s, old, new, count=-1):
+    """str.replace for strings of concrete length: non-overlapping matches, left to right; each potential match is a decision"""
+    s, old, new = lift(s), lift(old), lift(new)
+    if len(old) == 0: raise Unsupported("replace of the empty string")
+    if not isinstance(count, int): raise Unsupported("symbolic count")
+    out = []; i = 0; done = 0
+    while i < len(s.cs):
+        if i + len(old) <= len(s.cs) and (count < 0 or done < count) and \
+                CTX.decide(z3.And(*[s.cs[i + j] == old.cs[j] for j in range(len(old))])):
+            out.extend(new.cs); i += len(old); done += 1
+        else:
+            out.append(s.cs[i]); i += 1
+    return SStr(out)
 STR_METHODS = dict(lower=m_lower, upper=m_upper, title=m_title, islower=m_islower, isupper=m_isupper, istitle=m_istitle)
 
 def class_pred(items):
@@ -256,6 +288,10 @@ class Interp:
                 r = seq_eq(a, b)
                 if isinstance(op, ast.Eq): return r
                 if isinstance(op, ast.NotEq): return (not r) if isinstance(r, bool) else SBool(z3.Not(r.e))
+            if isinstance(op, (ast.In, ast.NotIn)) and isinstance(b, SStr):
+                r = m_contains(b, a)
+                if isinstance(op, ast.In): return r
+                return (not r) if isinstance(r, bool) else SBool(z3.Not(r.e))
             if isinstance(op, ast.Eq): return a == b
             if isinstance(op, ast.NotEq): return a != b
             if isinstance(op, ast.Is): return a is b
@@ -277,6 +313,9 @@ class Interp:
             if isinstance(v, (SStr, str)):
                 if e.attr == 'join': return lambda it, sep=v: self.join(sep, it)
                 if e.attr in STR_METHODS: return lambda s=lift(v), f=STR_METHODS[e.attr]: f(s)
+                if e.attr == 'replace': return lambda old, new, count=-1, s=lift(v): m_replace(s, old, new, count)
+                if e.attr == 'capitalize': return lambda s=lift(v): m_capitalize(s)
+                if e.attr == 'split': return lambda sep=None, maxsplit=-1, s=lift(v): m_split(s, sep, maxsplit)
             raise Unsupported(f"attribute {e.attr} line {e.lineno}")
         if isinstance(e, ast.Call):
             f = self.ev(e.func, env); args = [self.ev(a, env) for a in e.args]
